@@ -109,7 +109,7 @@ func Load(repo string, ov Overlay, patterns []string) (*World, error) {
 			packages.NeedDeps | packages.NeedTypes | packages.NeedSyntax | packages.NeedTypesInfo | packages.NeedTypesSizes | packages.NeedModule,
 		Dir:        repo,
 		Overlay:    overlay,
-		BuildFlags: []string{"-tags=verif"},
+		BuildFlags: []string{"-tags=verif,math_big_pure_go"}, // math_big_pure_go: math/big with its portable Go kernels instead of assembly (same results)
 		Env:        append(os.Environ(), "GOFLAGS=-mod=mod", "GOPROXY=off", "GOSUMDB=off", "GOTOOLCHAIN=local", "CGO_ENABLED=1"),
 	}
 	pkgs, err := packages.Load(cfg, patterns...)
@@ -257,7 +257,7 @@ var initStd = map[string]bool{
 	"encoding/hex": true, "encoding/base64": true, "errors": true, "cmp": true, "maps": true, "io": true,
 	"gopkg.in/src-d/go-errors.v1": true, "container/list": true, "hash/crc32": false,
 	"internal/strconv": true, "internal/stringslite": true, "internal/byteorder": true, "internal/itoa": true,
-	"github.com/cockroachdb/apd/v3": true, "context": true, "net/netip": true, "go.opentelemetry.io/otel/trace": true, "bufio": true, "regexp": true, "regexp/syntax": true, "time": true,
+	"github.com/cockroachdb/apd/v3": true, "context": true, "net/netip": true, "go.opentelemetry.io/otel/trace": true, "bufio": true, "regexp": true, "regexp/syntax": true, "time": true, "math/big": true,
 }
 
 func (w *World) wantInit(p *ssa.Package) bool {
@@ -275,7 +275,7 @@ var denyPrefixes = []string{
 	"os", "net", "syscall", "runtime", "reflect", "fmt", "log", "sync", "os/",
 	"internal/reflectlite", "internal/poll", "internal/syscall", "internal/runtime", "internal/testlog", "internal/bisect", "internal/oserror",
 	"github.com/sirupsen/logrus", "go.opentelemetry.io/", "io/ioutil", "io/fs", "net/", "crypto/", "testing",
-	"unsafe", "path/filepath", "math/rand", "math/big", "encoding/json", "database/sql",
+	"unsafe", "path/filepath", "math/rand", "encoding/json", "database/sql",
 	"google.golang.org/", "runtime/",
 }
 
